@@ -437,9 +437,12 @@ def _bind(helper, call):
         return None
     params = [x.arg for x in a.args]
     static = any(isinstance(d, ast.Name) and d.id == 'staticmethod' for d in helper.decorator_list)
-    if not static and not getattr(helper, '_module_level', False):
-        params = params[1:]
     binding = {}
+    if not static and not getattr(helper, '_module_level', False):
+        if params and isinstance(call.func, ast.Attribute) and not (
+                isinstance(call.func.value, ast.Name) and call.func.value.id == 'self'):
+            binding[params[0]] = call.func.value       # self := the receiver
+        params = params[1:]
     if any(isinstance(x, ast.Starred) for x in call.args) or any(k.arg is None for k in call.keywords):
         return None
     if len(call.args) > len(params):
@@ -472,6 +475,7 @@ class Inliner:
         self.kept_calls = {}
         self.module_funcs = {}            # private module-level functions of this module
         self.local_funcs = {}             # closures (nested def / lambda) of the function being normalised
+        self.fresh = {}                   # methods that are new w.r.t. the recorded tree: name -> (ClassDef, def)
 
     def helper(self, cls_chain, name):
         for c in cls_chain:
@@ -486,8 +490,11 @@ class Inliner:
     def eligible(self, h, name, caller, allow_generator=False):
         if h is None or h is caller:
             return False
-        if not getattr(h, '_closure', False) and (
-                name in self.no_inline or not name.startswith('_') or name.startswith('__')):
+        if name in self.no_inline and not getattr(h, '_closure', False):
+            return False
+        is_fresh = name in self.fresh and self.fresh[name][1] is h
+        if not getattr(h, '_closure', False) and not is_fresh and (
+                not name.startswith('_') or name.startswith('__')):
             return False
         if (_contains_yield(h) and not allow_generator) or len(list(_walk_no_nested(h))) > 800:
             return False
@@ -511,6 +518,12 @@ class Inliner:
         """(owner, helper def, name) for a call that may be inlined, else (None, None, None)"""
         if self._self_call(call):
             o, h = self.helper(chain, call.func.attr)
+            return o, h, call.func.attr
+        if isinstance(call, ast.Call) and isinstance(call.func, ast.Attribute) and call.func.attr in self.fresh \
+                and _simple_elt(call.func.value):
+            # a method that did not exist in the recorded tree (an extracted block), called on any
+            # receiver: its body is judged at the call, with `self` standing for the receiver
+            o, h = self.fresh[call.func.attr]
             return o, h, call.func.attr
         if isinstance(call, ast.Call) and isinstance(call.func, ast.Name) and call.func.id in self.local_funcs:
             return None, self.local_funcs[call.func.id], call.func.id
@@ -1107,8 +1120,9 @@ def _closures(fn):
     return {k: v for k, v in out.items() if v is not None}
 
 
-def normalize_module(tree, no_inline, all_classes=None):
-    """Normalise one module in place.  Returns {helper qual: inlined call count}."""
+def normalize_module(tree, no_inline, all_classes=None, recorded=None):
+    """Normalise one module in place.  Returns {helper qual: inlined call count}.
+    recorded: {class name: names of its methods in the recorded (pinned) tree}."""
     tree = _DictIdioms().visit(tree)
     tree = _IfExpDesugar().visit(tree)
     tree = _Unroll().visit(tree)
@@ -1129,6 +1143,21 @@ def normalize_module(tree, no_inline, all_classes=None):
     def qual_of(owner, h):
         return '%s.%s' % (owner.name, h.name) if owner is not None else ':%s' % h.name
     inl = Inliner(classes, no_inline)
+    if recorded:
+        defs = {}
+        for c in known.values():
+            for b in c.body:
+                if isinstance(b, ast.FunctionDef):
+                    defs.setdefault(b.name, []).append((c, b))
+        for name, lst in defs.items():
+            if name.startswith('__') and name.endswith('__'):
+                continue
+            if not all(c.name in recorded and name not in recorded[c.name] and not b.decorator_list for c, b in lst):
+                continue
+            # unique, or sibling implementations with the same body (then either stands for the call)
+            bodies = {ast.dump(ast.Module(body=[x for x in b.body if not _is_docstring(x)], type_ignores=[])) for c, b in lst}
+            if len(lst) == 1 or len(bodies) == 1:
+                inl.fresh[name] = lst[0]
     for n in tree.body:
         if isinstance(n, ast.FunctionDef) and n.name.startswith('_') and not n.name.startswith('__'):
             n._module_level = True
